@@ -10,6 +10,7 @@ import Proofs.StreamSeq
 import Proofs.StreamDap4
 import Proofs.StreamClient
 import Proofs.StreamFuel
+import Proofs.StreamTree
 namespace Pydap.C09
 open Pydap Pydap.Stream
 
@@ -214,6 +215,56 @@ theorem C09_seq_prefix_free (cols : List Col) (b : Bytes) (rows : List Row) (res
   rw [unpackSeqStream_eq_bytes]
   exact unpackSeqBytes_prefix cols b _ rows rest h hp
 
+/-! ## 4b. The whole of `unpack_dap2_data`: arrays, strings, structures, grids, nested sequences -/
+
+/-- **Records and arrays alike**: `unpack_dap2_data` over any declaration tree (scalars, padded Bytes,
+    strings, arrays with their two length words, string arrays, structures/grids, sequences nested to any
+    depth) gives, on a `StreamReader` over any chunking, what it gives on a `BytesReader` over the
+    concatenation … -/
+theorem C09_data_chunk_independent (vars : List Tmpl) (cs : List Bytes) :
+    absSR (unpackDataStream vars ⟨cs, []⟩) = unpackData vars cs.flatten :=
+  unpackDataStream_eq vars cs
+
+/-- … and **every body it accepts is prefix-free**: cut anywhere (inside an array, a length word, a marker
+    of an inner or outer sequence, a string or its padding) and read through either reader, any chunking,
+    it yields the same values or raises. -/
+theorem C09_data_prefix_free (vars : List Tmpl) (b : Bytes) (toks : List Tok) (rest : Bytes)
+    (h : unpackData vars b = .ok (toks, rest)) :
+    (∀ p, p <+: b → (∃ rest', unpackData vars p = .ok (toks, rest')) ∨ unpackData vars p = .error .eof) ∧
+    (∀ cs : List Bytes, cs.flatten <+: b →
+      (∃ rest', absSR (unpackDataStream vars ⟨cs, []⟩) = .ok (toks, rest')) ∨
+      absSR (unpackDataStream vars ⟨cs, []⟩) = .error .eof) := by
+  refine ⟨fun p hp => unpackData_prefix vars b p toks rest h hp, fun cs hp => ?_⟩
+  rw [unpackDataStream_eq]
+  exact unpackData_prefix vars b _ toks rest h hp
+
+/-- … with nothing left over when the body was consumed entirely: then every proper prefix raises. -/
+theorem C09_data_cut_raises (vars : List Tmpl) (b p : Bytes) (toks : List Tok)
+    (h : unpackData vars b = .ok (toks, [])) (hp : p <+: b) (hne : p ≠ b) :
+    unpackData vars p = .error .eof := by
+  rcases unpackData_prefix vars b p toks [] h hp with ⟨rest', h2⟩ | h2
+  · exfalso
+    -- the prefix run consumed as many bytes as the full run: it cannot be shorter
+    unfold unpackData at h h2
+    have hl := hp.length_le
+    rw [decTs_fuel (p.length + 1) (b.length + 1) vars p (by omega) (by omega)] at h2
+    rcases runBR_prefix _ b p toks [] h hp with ⟨g1, _⟩ | ⟨_, g2⟩
+    · apply hne
+      exact hp.eq_of_length (by simp at g1; omega)
+    · rw [g2] at h2; cases h2
+  · exact h2
+
+-- non-vacuity: Int32 a[2]; Structure { Byte b; String s[1]; }; Sequence { Int32 i; Sequence { Float64 x; } inner; }
+example : unpackData [.arr 4 2, .struct [.byte, .strArr 1], .seq [.fixed 4, .seq [.fixed 8]]]
+    [0, 0, 0, 2, 0, 0, 0, 2, 0, 0, 0, 7, 0, 0, 0, 9,
+     5, 0, 0, 0, 0, 0, 0, 1, 0, 0, 0, 2, 104, 105, 0, 0,
+     0x5a, 0, 0, 0, 0, 0, 0, 3, 0x5a, 0, 0, 0, 1, 2, 3, 4, 5, 6, 7, 8, 0xa5, 0, 0, 0, 0xa5, 0, 0, 0]
+    = .ok ([.val [0, 0, 0, 7], .val [0, 0, 0, 9], .val [5], .val [104, 105],
+            .rowStart, .val [0, 0, 0, 3], .rowStart, .val [1, 2, 3, 4, 5, 6, 7, 8], .seqEnd, .seqEnd], []) := by decide
+-- cut after the inner END marker (a record boundary of the outer sequence): raises
+example : unpackData [.seq [.fixed 4, .seq [.fixed 8]]]
+    [0x5a, 0, 0, 0, 0, 0, 0, 3, 0x5a, 0, 0, 0, 1, 2, 3, 4, 5, 6, 7, 8, 0xa5, 0, 0, 0] = .error .eof := by decide
+
 /-! ## 5. DAP4 -/
 
 /-- **`stream2bytearray` reassembles any chunking of a payload** (chunks of any size below 2^24, empty
@@ -256,10 +307,11 @@ example : unpackFrame (encFrame 4 [60, 62] [[1, 2, 3, 4], [5, 6, 7, 8]]) = .ok (
 /-- `Err.fuel` is an artefact of writing Python's `while` loops by recursion on a counter.  With the fuel the
     entry points pass (`length + 1`: every turn consumes a 4-byte marker or chunk header) it never occurs,
     on any input, for any reader. -/
-theorem C09_fuel_adequate (cols : List Col) (data : Bytes) (r : SR) :
+theorem C09_fuel_adequate (cols : List Col) (vars : List Tmpl) (data : Bytes) (r : SR) :
     unpackSeqBytes cols data ≠ .error .fuel ∧ absSR (unpackSeqStream cols r) ≠ .error .fuel ∧
-    stream2bytearray data ≠ .error .fuel :=
-  ⟨unpackSeqBytes_noFuel cols data, unpackSeqStream_noFuel cols r, stream2bytearray_noFuel data⟩
+    unpackData vars data ≠ .error .fuel ∧ stream2bytearray data ≠ .error .fuel :=
+  ⟨unpackSeqBytes_noFuel cols data, unpackSeqStream_noFuel cols r, unpackData_noFuel vars data,
+   stream2bytearray_noFuel data⟩
 
 /-- After the repair `stream2bytearray` is itself a decoder that only reads (4-byte header, then the chunk),
     on *every* input … -/
